@@ -989,6 +989,11 @@ class AtLeast(puan.Proposition):
         if not self.generated_id:
             d['id'] = self.id
 
+        # sign is given from value by default and needed
+        # only when it is not the default one
+        if self.sign != (puan.Sign.POSITIVE if self.value > 0 else puan.Sign.NEGATIVE):
+            d['sign'] = int(self.sign)
+
         return d
 
     def to_b64(self, str_decoding: str = 'utf8') -> str:
@@ -1043,7 +1048,8 @@ class AtLeast(puan.Proposition):
         return AtLeast(
             value=data.get('value', 1),
             propositions=list(map(functools.partial(from_json, class_map=class_map), propositions)),
-            variable=data.get('id', None)
+            variable=data.get('id', None),
+            sign=data.get('sign', None),
         )
 
     @staticmethod
@@ -1492,6 +1498,7 @@ class AtMost(AtLeast):
         """
         d = super().to_json()
         d['value'] = -1*self.value
+        d.pop('sign', None)
         return d
 
 class All(AtLeast):
